@@ -928,11 +928,15 @@ class Tr:
             s, t = self.ex(args[0], env)
             if t not in ('string', 'strings'): raise TranslateError(f'Err of {t}')
             return f'(Rs.Res.err {s})', ('result', 'lit', 'string')
+        if len(p) == 1 and last == 'rs_report_noword' and len(args) == 3:
+            o, to = self.ex(args[0], env); ps, _ = self.ex(args[1], env); m, tm = self.ex(args[2], env)
+            if to != ('struct', 'RsReports') or tm != 'string': raise TranslateError(f'{last}: argument types {to} {tm}')
+            return f'({o} ++ [Rs.Report.mk {ps} {m} [] false false])', ('struct', 'RsReports')
         if len(p) == 1 and last in ('rs_report', 'rs_report_each') and len(args) == 4:
             # the error channel as a value: `report_error(pos, msg, word)` appends one report (`_each`: one per message of a Vec<String>)
             o, to = self.ex(args[0], env); ps, _ = self.ex(args[1], env); m, tm = self.ex(args[2], env); w, tw = self.ex(args[3], env)
             if to != ('struct', 'RsReports') or tm not in ('string', 'strings') or tw != 'bytes': raise TranslateError(f'{last}: argument types {to} {tm} {tw}')
-            return f'({o} ++ [Rs.Report.mk {ps} {m} {w} {"true" if last.endswith("each") else "false"}])', ('struct', 'RsReports')
+            return f'({o} ++ [Rs.Report.mk {ps} {m} {w} {"true" if last.endswith("each") else "false"} true])', ('struct', 'RsReports')
         if p[-2:] == ['String', 'new'] or p[-2:] == ['Vec', 'new']:
             return 'Rs.Str.empty', 'string'
         if p[-2:] == ['String', 'from']:
@@ -1624,8 +1628,28 @@ class Tr:
     def unit_result(self, env):
         return '()'
 
+    def is_none_field(self, x, env):
+        """`self.f` (through as_ref / as_mut / & / &mut) for a field the spec declares to be `None` (spec flag `none_fields`:
+           the translation is a specialisation to the configurations in which that optional component is absent)"""
+        while x[0] in ('paren', 'ref', 'deref') or (x[0] == 'mcall' and x[2] in ('as_ref', 'as_mut') and not x[3]): x = x[1]
+        if x[0] != 'field' or x[1][0] != 'path' or x[1][1] != ['self']: return False
+        return x[2] in FLAGS.get('none_fields', {}).get(env['owner'], [])
+
+    def static_false(self, c, env):
+        """conditions that are false because a `none_fields` field is `None`"""
+        if c[0] == 'paren': return self.static_false(c[1], env)
+        if c[0] == 'iflet':
+            pat = c[1]
+            return pat[0] == 'pctor' and pat[1] == ['Some'] and self.is_none_field(c[2], env)
+        if c[0] == 'mcall' and c[2] in ('is_some', 'is_some_and') and self.is_none_field(c[1], env): return True
+        if c[0] == 'bin' and c[1] == '&&': return self.static_false(c[2], env) or self.static_false(c[3], env)
+        return False
+
     def if_stmt(self, e, rest, env, expect, is_tail):
         cond, then, els = e[1], e[2], e[3]
+        if self.static_false(cond, env):
+            # dead branch under the `none_fields` specialisation: only the `else` part remains
+            return self.stmts(list(els or []) + list(rest), env, expect)
         c, env_then = self.cond(cond, env)
         va, ra = self.assigned(then, env_then)
         vb, rb = self.assigned(els, env) if els else ([], False)
